@@ -49,10 +49,61 @@ func (l LineString) Distance(p Point) float64 {
 
 // Clip returns the part of the receiver that falls within the given polygon.
 func (l LineString) Clip(p Polygonal) Linear {
-	pTemp := Polygon{Path(l)}.op(p, polyclip.CLIPLINE)
+	pTemp := clipLine(l, p)
 	o := make(MultiLineString, len(pTemp))
 	for i, pp := range pTemp {
 		o[i] = LineString(pp[0 : len(pp)-1])
+	}
+	return o
+}
+
+// clipLine clips l to p. The clipper compares some quantities with absolute
+// tolerances, which swallow the vertices of very small figures. Operands whose
+// coordinates are all smaller than 1/2 in absolute value are therefore scaled
+// up by the power of two that brings the largest of them into [1/2, 1) and the
+// pieces are scaled back. Both scalings are exact; operands with a larger
+// coordinate are clipped as they are.
+func clipLine(l LineString, p Polygonal) Polygon {
+	polys := p.Polygons()
+	m := maxAbs(Path(l), 0)
+	for _, pg := range polys {
+		for _, r := range pg {
+			m = maxAbs(r, m)
+		}
+	}
+	if !(m >= 0x1p-1000 && m < 0.5) {
+		return Polygon{Path(l)}.op(p, polyclip.CLIPLINE)
+	}
+	_, e := math.Frexp(m)
+	s := math.Ldexp(1, -e)
+	q := make(MultiPolygon, len(polys))
+	for i, pg := range polys {
+		q[i] = make(Polygon, len(pg))
+		for j, r := range pg {
+			q[i][j] = scalePath(r, s)
+		}
+	}
+	pTemp := Polygon{scalePath(Path(l), s)}.op(q, polyclip.CLIPLINE)
+	o := make(Polygon, len(pTemp))
+	for i, r := range pTemp {
+		o[i] = scalePath(r, 1/s)
+	}
+	return o
+}
+
+// maxAbs returns the largest of m and the absolute values of the coordinates of r.
+func maxAbs(r Path, m float64) float64 {
+	for _, pt := range r {
+		m = math.Max(m, math.Max(math.Abs(pt.X), math.Abs(pt.Y)))
+	}
+	return m
+}
+
+// scalePath returns a copy of r with every coordinate multiplied by s.
+func scalePath(r Path, s float64) Path {
+	o := make(Path, len(r))
+	for i, pt := range r {
+		o[i] = Point{X: pt.X * s, Y: pt.Y * s}
 	}
 	return o
 }
